@@ -1168,10 +1168,9 @@ func c10CaseQuota(t *testing.T, h *vHarness, r *vRand, cg *c10Cgroup, beDir stri
 	if cur < -1 {
 		cur = -1
 	}
-	// gated stream (VERIF_C10_UNLIMITED_BYPASS=1): BE currently unlimited (-1) and a finite target inside the 1 % bypass
-	// band, i.e. 2000 < target < capacity x 1000 - 1  (budget between 20m and 1 % of the node)
-	gated := os.Getenv("VERIF_C10_UNLIMITED_BYPASS") == "1"
-	if gated && r.Chance(1, 3) && cores >= 3 {
+	// BE currently unlimited (-1) and a finite target inside the 1 % bypass band, i.e. 2000 < target < capacity x 1000 - 1
+	// (budget between 20m and 1 % of the node): before repair 4d853b2 nothing was written and BE stayed unlimited
+	if r.Chance(1, 6) && cores >= 3 {
 		cur = -1
 		budget = int64(r.Range(21, int(cores*10-1)))
 		target = budget * 100
@@ -1200,6 +1199,12 @@ func c10CaseQuota(t *testing.T, h *vHarness, r *vRand, cg *c10Cgroup, beDir stri
 	if written {
 		h.Nontrivial()
 	}
+	if cur == -1 {
+		h.Tag("quota:from-unset")
+		if target != 2000 && target+1 < cores*1000 {
+			h.Tag("quota:from-unset-inside-bypass-band")
+		}
+	}
 	// oracle: budget x period floored by the minimum; the two documented exceptions are the 1% bypass and the 10% step
 	diff := target - cur
 	if diff < 0 {
@@ -1214,17 +1219,13 @@ func c10CaseQuota(t *testing.T, h *vHarness, r *vRand, cg *c10Cgroup, beDir stri
 	switch {
 	case got == target:
 		h.Tag("quota:target")
+	case cur == -1 && got == -1:
+		// the "current quota" -1 is the unlimited sentinel, not a number 1 % away from the target:
+		// BE keeps running without any quota although the budget is finite
+		h.Fail("C10:quota-stays-unlimited", "budget %dm => target quota %d, but cpu.cfs_quota_us stays -1 (unlimited), capacity %d CPUs",
+			budget, target, cores)
 	case got == cur && !written && diff < cores*1000 && target != 2000:
 		h.Tag("quota:bypass")
-		if cur == -1 {
-			// the "current quota" -1 is the unlimited sentinel, not a number 1 % away from the target:
-			// BE keeps running without any quota although the budget is finite
-			h.Tag("quota:bypass-stays-unlimited")
-			if gated {
-				h.Fail("C10:quota-stays-unlimited", "budget %dm => target quota %d, but cpu.cfs_quota_us stays -1 (unlimited): |%d - (-1)| < 1%% of %d CPUs x period",
-					budget, target, target, cores)
-			}
-		}
 	case cur != -1 && target-cur > cores*10000 && got == cur+cores*10000:
 		h.Tag("quota:step")
 	default:
